@@ -206,6 +206,7 @@ type c03Shared struct {
 	evals      atomic.Int64
 	outPath    string
 	done       atomic.Bool
+	pause      atomic.Bool // set while the monitor gives a suspected hang the machine to itself
 	corpus     *c03Corpus
 }
 
@@ -241,6 +242,8 @@ type c03Worker struct {
 	probing  bool
 	probeHit string
 	lastSig  string
+	slowest     time.Duration
+	slowestName string
 }
 
 func (w *c03Worker) namePtr(name string) *string {
@@ -254,6 +257,9 @@ func (w *c03Worker) namePtr(name string) *string {
 
 // guard runs one call of the code under test under recover and watchdog.
 func (w *c03Worker) guard(name string, f func()) (ok bool) {
+	for w.sh.pause.Load() {
+		time.Sleep(5 * time.Millisecond)
+	}
 	w.slot.begin(w.namePtr(name))
 	defer func() {
 		w.slot.end()
@@ -263,9 +269,20 @@ func (w *c03Worker) guard(name string, f func()) (ok bool) {
 		}
 	}()
 	w.obsCalls[name]++
+	if c03Timing {
+		t0 := time.Now()
+		f()
+		if d := time.Since(t0); d > w.slowest {
+			w.slowest, w.slowestName = d, name+" on "+c03Clip(w.cur.line(), 600)
+		}
+		return true
+	}
 	f()
 	return true
 }
+
+// C03_TIMING=1: report the slowest single call (how far the 2 s watchdog is from legitimate work)
+var c03Timing = os.Getenv("C03_TIMING") != ""
 
 func (w *c03Worker) fail(class, what string) {
 	if w.probing {
@@ -327,6 +344,20 @@ func (w *c03Worker) minimise(c *c03Case, class string) *c03Case {
 				best = cand
 			} else {
 				i++
+			}
+		}
+	}
+	// structure first: drop whole code/length/value items, fixing the enclosing lengths
+	if len(best.data) == 1 {
+		for progress := true; progress && trials < 300; {
+			progress = false
+			for _, m := range tlvRemovals(best.entry, best.sub, best.data[0]) {
+				cand := clone(best)
+				cand.data[0] = m
+				if try(cand) {
+					best, progress = cand, true
+					break
+				}
 			}
 		}
 	}
@@ -1007,11 +1038,16 @@ func oracleC03(r *Rng, n int, thorough bool, seeds []string) *OracleResult {
 		workers[i] = w
 	}
 
-	// watchdog monitor
+	// watchdog monitor.  A call that has not returned after c03HangAfter is a
+	// suspect: the other workers are paused (so that a slow machine or our own
+	// parallelism cannot be the reason) and the suspect gets c03HangAfter more;
+	// if it still has not returned it is reported as a hang and the process exits
+	// (a goroutine stuck in a loop cannot be stopped).
 	stop := make(chan struct{})
 	go func() {
 		lastSeq := make([]uint64, len(slots))
 		since := make([]time.Time, len(slots))
+		suspect := -1
 		tick := time.NewTicker(50 * time.Millisecond)
 		defer tick.Stop()
 		for {
@@ -1023,32 +1059,46 @@ func oracleC03(r *Rng, n int, thorough bool, seeds []string) *OracleResult {
 					seq := s.seq.Load()
 					if !s.active.Load() || seq != lastSeq[i] {
 						lastSeq[i], since[i] = seq, now
+						if suspect == i {
+							suspect = -1
+							sh.pause.Store(false)
+							sh.mu.Lock()
+							res.Tags["watchdog/slow-call-finished-when-alone"]++
+							sh.mu.Unlock()
+						}
 						continue
 					}
-					if now.Sub(since[i]) > c03HangAfter {
-						name, cur := "?", s.cur.Load()
-						if p := s.name.Load(); p != nil {
-							name = *p
-						}
-						if s.seq.Load() != seq {
-							continue
-						}
-						if cur == nil {
-							cur = &c03Case{entry: "v4", data: [][]byte{{}}}
-						}
-						sh.addFailure("hang:"+name, fmt.Sprintf("%s did not return within %v", name, c03HangAfter), cur)
-						sh.mu.Lock()
-						res.Evaluations = int(sh.evals.Load())
-						res.Oracle = "c03"
-						js, _ := json.MarshalIndent(res, "", " ")
-						if sh.outPath != "" {
-							os.WriteFile(sh.outPath, js, 0o644)
-						} else {
-							fmt.Println(string(js))
-						}
-						fmt.Fprintln(os.Stderr, "c03: HANG in", name, "- result written, exiting")
-						os.Exit(3)
+					if now.Sub(since[i]) <= c03HangAfter {
+						continue
 					}
+					if suspect == -1 {
+						suspect = i
+						sh.pause.Store(true)
+						since[i] = now
+						continue
+					}
+					if suspect != i {
+						continue
+					}
+					name, cur := "?", s.cur.Load()
+					if p := s.name.Load(); p != nil {
+						name = *p
+					}
+					if cur == nil {
+						cur = &c03Case{entry: "v4", data: [][]byte{{}}}
+					}
+					sh.addFailure("hang:"+name, fmt.Sprintf("%s did not return within %v (nor within %v more with all other work paused)", name, c03HangAfter, c03HangAfter), cur)
+					sh.mu.Lock()
+					res.Evaluations = int(sh.evals.Load())
+					res.Oracle = "c03"
+					js, _ := json.MarshalIndent(res, "", " ")
+					if sh.outPath != "" {
+						os.WriteFile(sh.outPath, js, 0o644)
+					} else {
+						fmt.Println(string(js))
+					}
+					fmt.Fprintln(os.Stderr, "c03: HANG in", name, "- result written, exiting")
+					os.Exit(3)
 				}
 			}
 		}
@@ -1092,6 +1142,17 @@ func oracleC03(r *Rng, n int, thorough bool, seeds []string) *OracleResult {
 	}
 	res.Evaluations = int(sh.evals.Load())
 	res.Distinct = len(sh.seen)
+	if c03Timing {
+		var d time.Duration
+		var n string
+		for _, w := range workers {
+			if w.slowest > d {
+				d, n = w.slowest, w.slowestName
+			}
+		}
+		res.Tags["slowest-call-us"] = int(d.Microseconds())
+		res.Samples = append(res.Samples, fmt.Sprintf("slowest single call: %s %v", n, d))
+	}
 	total := 0
 	perPkg := map[string]int{}
 	for k, v := range distinctObs {
@@ -1142,4 +1203,11 @@ func sampleNames(names []string, k int) []string {
 
 func init() {
 	registerOracle(&Oracle{Name: "c03", Run: oracleC03})
+}
+
+func c03Clip(s string, n int) string {
+	if len(s) > n {
+		return s[:n] + fmt.Sprintf("...(%d chars)", len(s))
+	}
+	return s
 }
